@@ -7,7 +7,9 @@ PROP = dict(
                        "shape_ok (http/https, dotted non-loopback host, absolute path, no fragment, no dot segment, no panic)",
                        "query_order_kept (the well-formed parameters of a query keep order and multiplicity, whatever droppable pieces - empty, semicolon, bad escape - surround them)",
                        "resolve_keeps_origin (a reference without scheme and authority keeps the parent's scheme, credentials, host and port)",
-                       "resolve_in_directory (a path-relative reference without dot segments lands in the parent's directory)"]),
+                       "resolve_in_directory (a path-relative reference without dot segments lands in the parent's directory)",
+                       "fragment_irrelevant (the text and the text cut at its first '#' get the same answer, however many '#' follow)",
+                       "scheme_relative_takes_parent_scheme (a //host reference under a parent gets the parent's scheme, RFC 3986 5.2.2)"]),
     ],
     partial="The ada (WHATWG) parser, net/url and x/net/idna are oracles: the theorems are about the reference normaliser "
             "(coq/Url/Resolve.v) on URL ASTs of the reference grammar (coq/Url/RefUrl.v: in_grammar); text -> AST parsing is "
@@ -20,7 +22,7 @@ PROP = dict(
                  "credential clean-up, dot-segment removal, special-query percent-encoding; net/url keeps a valid raw path verbatim) - "
                  "validated against the real functions on every generated in-grammar case (98.8% of the grammar stream)",
                  "'loopback' is what the code checks: the canonical hostname is neither \"localhost\" nor \"127.0.0.1\" and contains a dot"],
-    level_text="30 theorems, closed under the global context. For ALL byte strings: QueryUnescape(QueryEscape s) = s; parse(encode ps) = ps "
+    level_text="32 theorems, closed under the global context. For ALL byte strings: QueryUnescape(QueryEscape s) = s; parse(encode ps) = ps "
                "(order, multiplicity); ada's query encoding is invisible to url.ParseQuery. For ALL URL ASTs, parents and reference forms: "
                "the normaliser is a function and independent of whether String() was already called on the parent; an accepted result "
                "normalised again with any parent is itself; every accepted result is http/https with a dotted host other than localhost/127.0.0.1, "
